@@ -214,9 +214,18 @@ class TClientHarness:
         kw.setdefault('logger', SilentLogger())
         kw.setdefault('handle_sigint', False)
         self.client = VClient(**kw)
-        self.client.on('connect', lambda: self.log.ev('connect'))
-        self.client.on('message', lambda d: self.log.ev('message', d))
-        self.client.on('disconnect', lambda r: self.log.ev('disconnect', r))
+        self.handler_delay = {}      # event -> virtual seconds the client's handler takes
+
+        def slow(event, *a):
+            try:
+                return self.log.ev(event, *a)
+            finally:
+                d = self.handler_delay.get(event)
+                if d:
+                    vsched.vsleep(d)
+        self.client.on('connect', lambda: slow('connect'))
+        self.client.on('message', lambda d: slow('message', d))
+        self.client.on('disconnect', lambda r: slow('disconnect', r))
         self.calls = []
 
     # -- fake requests ------------------------------------------------------------------------
@@ -445,20 +454,36 @@ class AClientHarness:
         self.session = FakeAioSession(self)
         self.client = engineio.AsyncClient(http_session=self.session, **kw)
 
+        self.handler_delay = {}      # event -> virtual seconds the client's handler takes
+
+        async def nap(event):
+            d = self.handler_delay.get(event)
+            if d:
+                await asyncio.sleep(d)
+
         async def on_connect():
-            r = self.log.ev('connect')
-            if asyncio.iscoroutine(r):
-                await r
+            try:
+                r = self.log.ev('connect')
+                if asyncio.iscoroutine(r):
+                    await r
+            finally:
+                await nap('connect')
 
         async def on_message(d):
-            r = self.log.ev('message', d)
-            if asyncio.iscoroutine(r):
-                await r
+            try:
+                r = self.log.ev('message', d)
+                if asyncio.iscoroutine(r):
+                    await r
+            finally:
+                await nap('message')
 
         async def on_disconnect(reason):
-            r = self.log.ev('disconnect', reason)
-            if asyncio.iscoroutine(r):
-                await r
+            try:
+                r = self.log.ev('disconnect', reason)
+                if asyncio.iscoroutine(r):
+                    await r
+            finally:
+                await nap('disconnect')
         self.client.on('connect', on_connect)
         self.client.on('message', on_message)
         self.client.on('disconnect', on_disconnect)
